@@ -300,6 +300,7 @@ pub struct H {
     pub probes_written: u64,
     pub current: String,
     pub cur_path: Option<String>,
+    pub tag: i64, // script line of the event (exec), -1 otherwise
 }
 
 fn dump_json(d: &gecs::verif::Dump) -> J {
@@ -410,6 +411,7 @@ impl H {
             probes_written: 0,
             current: String::new(),
             cur_path: None,
+            tag: -1,
         }
     }
 
@@ -454,8 +456,10 @@ impl H {
             p.remove(i);
         }
         p.push(d);
-        if p.len() > 16 {
-            p.remove(0);
+        if p.len() > 28 {
+            // evict from the older half, not strictly the oldest: some handles stay probed for long
+            let victim = (self.step as usize * 7 + 3) % (p.len() / 2);
+            p.remove(victim);
         }
     }
 
@@ -553,7 +557,12 @@ impl H {
         #[cfg(feature = "events")]
         o.extend(observe_world_events(self.worlds[wi].as_ref().unwrap()));
         // the freshly minted direct handles become probe targets of later steps
-        let keep: Vec<EntityDirectAny> = minted.iter().rev().take(4).copied().collect();
+        // keep a few, spread over the archetypes (one per archetype id, rotating within it)
+        let mut keep: Vec<EntityDirectAny> = Vec::new();
+        for id in ARCH_IDS.iter() {
+            let of: Vec<EntityDirectAny> = minted.iter().filter(|d| d.archetype_id() == *id).copied().collect();
+            if !of.is_empty() { keep.push(of[(step as usize) % of.len()]); }
+        }
         for d in keep { self.remember_direct(wi, d); }
         J::O(o)
     }
@@ -583,6 +592,7 @@ impl H {
         for d in late { an.push(J::A(vec![J::s("drop_during_observation"), J::S(d.to_string())])); }
         ev.push(("anom", J::A(an)));
         ev.push(("step", ji(self.step)));
+        ev.push(("sl", ji(self.tag)));
         writeln!(self.out, "{}", J::O(ev).to_line()).unwrap();
         self.out.flush().unwrap();
         self.events_written += 1;
